@@ -3,6 +3,7 @@ module github.com/formancehq/ledger/verifx
 go 1.20
 
 require (
+	github.com/ThreeDotsLabs/watermill v1.2.0
 	github.com/antlr/antlr4/runtime/Go/antlr v1.4.10
 	github.com/formancehq/ledger v0.0.0
 	github.com/formancehq/stack/libs/go-libs v0.0.0-20230517212829-71aaaacfd130
@@ -15,7 +16,6 @@ require (
 
 require (
 	github.com/Shopify/sarama v1.38.1 // indirect
-	github.com/ThreeDotsLabs/watermill v1.2.0 // indirect
 	github.com/ThreeDotsLabs/watermill-http v1.1.4 // indirect
 	github.com/ThreeDotsLabs/watermill-kafka/v2 v2.2.2 // indirect
 	github.com/ThreeDotsLabs/watermill-nats/v2 v2.0.0 // indirect
